@@ -19,12 +19,12 @@ func ddpNamed(t types.Type, name string) bool {
 		t = p.Elem()
 	}
 	nt, ok := t.(*types.Named)
-	return ok && nt.Obj().Name() == name && nt.Obj().Pkg() != nil && nt.Obj().Pkg().Name() == "ddptypes"
+	return ok && nt.Obj().Name() == name && nt.Obj().Pkg() != nil && nameIs(nt.Obj().Pkg(), "ddptypes")
 }
 
 func isDDPType(t types.Type) bool {
 	nt, ok := t.(*types.Named)
-	return ok && nt.Obj().Name() == "Type" && nt.Obj().Pkg() != nil && nt.Obj().Pkg().Name() == "ddptypes"
+	return ok && nameIs(nt.Obj(), "Type") && nt.Obj().Pkg() != nil && nameIs(nt.Obj().Pkg(), "ddptypes")
 }
 
 // typeTest is a run-time test of the dynamic type or identity of a ddptypes.Type value.
@@ -477,14 +477,14 @@ func checkC14(c *Check) {
 	}
 	for _, rel := range []string{"src/ast", "src/ast/annotators", "src/parser", "src/parser/resolver", "src/parser/typechecker", "src/compiler", "cmd/kddp"} {
 		L.ForEachFunc([]string{rel}, func(fi *FuncInfo) {
-			if fi.Obj.Name() == "String" {
+			if nameIs(fi.Obj, "String") {
 				return
 			}
 			finfo := fi.Pkg.TypesInfo
 			for _, tt := range collectTypeTests(L, fi) {
 				q := L.QName(fi.Obj)
 				key := q + "|" + tt.Kind + " " + tt.Target
-				if v := fieldOf(finfo, tt.Operand); v != nil && v.Name() == "Type" {
+				if v := fieldOf(finfo, tt.Operand); v != nil && nameIs(v, "Type") {
 					if sel, ok := ast.Unparen(tt.Operand).(*ast.SelectorExpr); ok && ddpNamedAst(finfo.TypeOf(sel.X), "StructDecl") {
 						r4.Ex(key, tt.Node.Pos(), exempt["field ast.StructDecl.Type"])
 						continue
@@ -507,5 +507,5 @@ func ddpNamedAst(t types.Type, name string) bool {
 		t = p.Elem()
 	}
 	nt, ok := t.(*types.Named)
-	return ok && nt.Obj().Name() == name && nt.Obj().Pkg() != nil && nt.Obj().Pkg().Name() == "ast"
+	return ok && nt.Obj().Name() == name && nt.Obj().Pkg() != nil && nameIs(nt.Obj().Pkg(), "ast")
 }
